@@ -56,6 +56,8 @@ C08 == Holds("C08")
 C09 == Holds("C09")
 C11 == Holds("C11")
 C12 == Holds("C12")
+C13 == Holds("C13")
+C14 == Holds("C14")
 C18 == Holds("C18")
 C20 == Holds("C20")
 =============================================================================
